@@ -370,6 +370,18 @@ def structural_facts():
     facts["osrm_client_per_call"] = bool(re.search(r"HttpClient\s+client\s*\(\s*host\s*\+", function_body(og, r"OsrmGeoFilter::getAccessibleNodesFootpathsFromPoint\s*\("))) and not re.search(r"\bstatic\b", og)
     members = re.findall(r"^\s*(?:const\s+)?std::string\s+(\w+)\s*;", oh, re.M)
     facts["osrm_filter_members_are_config_strings"] = sorted(members) == ["host", "mode", "port"] and not re.search(r"\bmutable\b|\bstatic\b", oh)
+    # the geography filter is ONE object shared by all requests (and all threads): the base class and the Euclidean filter declare no
+    # data member at all (every statement of the class bodies is a function declaration or an access label), the OSRM filter only
+    # its three configuration strings (above); no mutable / non-function static anywhere in their sources
+    def data_members(header, cls):
+        h = strip_comments(src(header))
+        mm = re.search(r"class\s+%s\b[^{;]*\{(.*?)\n\s*\};" % cls, h, re.S)
+        if not mm: return None
+        decls = [x.strip() for x in re.sub(r"\b(public|protected|private)\s*:", ";", mm.group(1)).split(";")]
+        return [x for x in decls if x and "(" not in x]
+    gsrc = strip_comments(src("src/geofilter.cpp") + src("src/euclideangeofilter.cpp") + src("include/geofilter.hpp") + src("include/euclideangeofilter.hpp"))
+    facts["geofilters_are_stateless"] = (data_members("include/geofilter.hpp", "GeoFilter") == [] and data_members("include/euclideangeofilter.hpp", "EuclideanGeoFilter") == []
+                                         and not re.search(r"\bmutable\b|\bthread_local\b|\bstatic\s+(?!std::tuple<float, float> calculateLengthOfOneDegree|float calculate)", gsrc))
     calcs = strip_comments(src("connection_scan_algorithm/src/calculator.cpp") + src("connection_scan_algorithm/src/alternatives_routing.cpp") + src("connection_scan_algorithm/src/resets.cpp"))
     facts["no_static_state_in_calculator"] = not re.search(r"\bstatic\s+(?!const|std::string\s+\w+\()", calcs)
     return facts
